@@ -273,10 +273,21 @@ func (r *RunResult) Term() string {
 	}
 }
 
+// RunNative runs an executable.  With the default limit a time-out is confirmed by a second
+// run with a six times longer limit before it is reported: on a loaded machine a process can
+// be starved for seconds, and a time-out must never be a verdict about the program.
 func RunNative(exe string, timeout time.Duration) *RunResult {
 	if timeout == 0 {
-		timeout = 10 * time.Second
+		r := runNativeOnce(exe, 10*time.Second)
+		if r.TimedOut {
+			r = runNativeOnce(exe, 60*time.Second)
+		}
+		return r
 	}
+	return runNativeOnce(exe, timeout)
+}
+
+func runNativeOnce(exe string, timeout time.Duration) *RunResult {
 	ctx, cancel := context.WithTimeout(context.Background(), timeout)
 	defer cancel()
 	cmd := exec.CommandContext(ctx, exe)
